@@ -17,7 +17,9 @@ Print Assumptions inlines_nonvacuous.
 (* ---- 1. termination of the main loop (C01, inline half) ----
    FULL statements (kept visible): every iteration of `while subj.parse_inline(node) {}` that answers true moves
    `pos` forward, whatever the options; the whole inline phase of a block answers Ok (no Panic, no fuel exhaustion)
-   on NUL-free right-trimmed content whose line_offsets cover its lines. *)
+   on NUL-free right-trimmed content whose line_offsets cover its lines.
+   (inlines_total_full_statement is refuted as stated - missing premises, section 1e; proved: no fuel exhaustion
+   at all, 1f; all Panic sites but 25, 1g.) *)
 Definition parse_inline_advances_full_statement : Prop :=
   forall memo o u inp lo sl refmap maxref s s',
     parse_inline memo o u inp lo sl refmap maxref s = Ok (Some s') -> pos s < pos s'.
@@ -76,11 +78,8 @@ Print Assumptions inlines_total_partial.
    FULL statement: the inline phase of a block never answers OutOfFuel.  The fuel-carrying loops of the phase are
    the main loop (above), scan_to_closing_dollar / scan_to_closing_code_dollar, the rewind loop of
    handle_autolink_with, the backward walk of autolink_delim and the closer loop of process_emphasis (pe_loop).
-   PROVED for all of them but pe_loop.  GAP: pe_loop gets 2 |input| + 2 |stack| + 2 iterations; every iteration
-   either moves the closer up the stack or removes at least one byte from the closer's text node, so the bound
-   needs the invariant that the text nodes of the delimiters on the stack hold at most 2 |input| bytes in total
-   (and that their ids are distinct siblings), which is not proved; nor is the propagation lemma that no leaf
-   function (entity, url cleaning, ...) answers OutOfFuel (none of them carries fuel). *)
+   PROVED for all of them; pe_loop and the propagation lemma (no leaf function answers OutOfFuel) are in the
+   second wave: section 1f below proves inlines_fuel_full_statement (theorem inlines_fuel). *)
 Definition inlines_fuel_full_statement : Prop :=
   forall memo o u inp lo sl refmap maxref rs0,
     parse_inlines memo o u inp lo sl refmap maxref rs0 <> OutOfFuel.
@@ -122,8 +121,15 @@ Proof. exact find_opener_props. Qed.
 Print Assumptions process_emphasis_opener_matches.
 
 (* ---- 1d. Panic sites ----
-   FULL statement inlines_total_full_statement (above) is NOT proved.  The Panic sites of Model/Inlines.v fall in
-   four groups; what excludes each:
+   FULL statement inlines_total_full_statement (above) is NOT proved, and is FALSE as stated (its premises are too
+   weak: 1e; inlines_total_statement there is the corrected statement).  STATE AFTER THE SECOND WAVE (1e-1g below):
+   under the premises of 1g every Panic of parse_inlines is at one of 25 REMAINING sites (inlines_remaining_sites_are):
+   the 13 stack sites of group (iii) except process_emphasis:unreachable, the 3 sites of the autolink rewind
+   (reachable on invalid UTF-8), and 9 sites of group (i) that need a bound on what a regex scanner returns
+   (handle_pointy_brace uri / email / contents, make_autolink:end_column-1, handle_close_bracket input[endurl..] /
+   input[starttitle..] / input[endtitle..] / title, clean_title).  Groups (i) otherwise and (ii) entirely are
+   proved unreachable (51 sites, inlines_unreachable_sites_are).  The first-wave analysis, kept:
+   The Panic sites of Model/Inlines.v fall in four groups; what excludes each:
    (i) local arithmetic (pos-1, endpos-openticks, slices of the input ...): excluded by pos <= |input| and by
        what the scanning helper just returned.  PROVED for handle_backticks (backticks_local_sites_unreachable:
        its five sites; a closer lies after the opening run and inside the input: backticks_closer_in_bounds);
@@ -388,12 +394,12 @@ Proof. exact InlinesTotal2Main.final_emphasis_unreachable_site. Qed.
 Print Assumptions inlines_total_partial_final_emphasis_unreachable.
 
 (* ---- 1g. which Panic sites the inline phase can answer (Proofs/InlinesTotal2Sites.v, InlinesTotal2Walk.v) ----
-   PROVED, every option set / oracle / reference map / memo switch: on right-trimmed content whose line endings
-   (LF, CR LF, bare CR) are covered by the line-offset table, with the reference budget within its maximum, a Panic
-   of parse_inlines is at one of the sites of `inlines_remaining_sites` (spelled out below); all the other sites of
-   Model/Inlines.v, the column arithmetic of make_inline / end_column and the sites of the autolink leaf functions
-   are UNREACHABLE (inlines_total_partial_unreachable lists them).  Invariants carried through every arm of
-   parse_inline, the main loop and both calls of process_emphasis:
+   PROVED, every option set / oracle / reference map / memo switch: on right-trimmed content whose first line is not
+   blank and whose line endings (LF, CR LF, bare CR) are covered by the line-offset table, with the reference budget
+   within its maximum, a Panic of parse_inlines is at one of the 25 sites of `inlines_remaining_sites` (spelled out
+   in inlines_remaining_sites_are); the other 51 sites - of Model/Inlines.v, of the column arithmetic of
+   make_inline / end_column, of the autolink leaf functions - are UNREACHABLE (inlines_total_partial_unreachable).
+   Invariants carried through every arm of parse_inline, the main loop and both calls of process_emphasis:
      CInv  column_offset = -(start of the current line) <= 0, that start <= pos, the byte in front of it is a line end
            (so every column make_inline / end_column computes is >= 0: each arm makes its nodes at or after the
            position it started from; the hard break reaches two bytes back, which are spaces, not the line end)
@@ -401,22 +407,122 @@ Print Assumptions inlines_total_partial_final_emphasis_unreachable.
            (handle_newline / the backslash break consume a line ending per line; adjust_node_newlines adds the LF
            count of a slice that lies inside the consumed stretch; its index into the table is that count)
      RInv  ref_size <= max_ref_size          FInv  (1f) stacked bytes are delimiter bytes
-   No premise on NUL bytes, UTF-8 validity or the first line: the sites that need them are among the remaining ones. *)
+   The premises are what the block phase hands over (Model/Parse.v run_leaves: content, line offsets, start line of
+   a Paragraph / Heading / TableCell; budget from 0) - that the block phase establishes them is NOT proved here.
+   No premise on NUL bytes or UTF-8 validity: the sites that need them are among the remaining ones.
+   REMAINING (25), by the invariant that would exclude them:
+     (S) the stacks name Text siblings in stack order (13): insert_emph x8, process_emphasis closer / opener
+         text_mut().unwrap(), bracket inl_text not among the children x2, label from bracket position;
+     (T) the Text siblings in front of an autolink spell the scheme, needs valid UTF-8 (3): handle_autolink_with
+         last_child().unwrap(), expected text node before autolink colon [REACHABLE on invalid UTF-8: 1e],
+         end.column-reverse;
+     (P) a scanner match is at least 1 and at most the slice it was given (9): handle_pointy_brace uri / email /
+         contents, make_autolink:end_column-1, handle_close_bracket input[endurl..] / input[starttitle..] /
+         input[endtitle..] / title, clean_title (its argument is empty or a link_title match of >= 2 bytes). *)
 From V Require Proofs.InlinesTotal2Sites Proofs.InlinesTotal2Walk.
 
 Definition inlines_remaining_sites : list String.string := InlinesTotal2Sites.remaining.
 
+Theorem inlines_remaining_sites_are :
+  inlines_remaining_sites =
+  [ "inlines.rs:insert_emph:opener.inl not among the siblings";
+    "inlines.rs:insert_emph:opener.inl.next_sibling().unwrap()";
+    "inlines.rs:insert_emph:text().unwrap()";
+    "inlines.rs:insert_emph:opener text as_bytes()[0]";
+    "inlines.rs:insert_emph:opener_num_chars-use_delims";
+    "inlines.rs:insert_emph:closer_num_chars-use_delims";
+    "inlines.rs:insert_emph:closer end.column-closer_num_chars";
+    "inlines.rs:insert_emph:opener end.column-use_delims";
+    "inlines.rs:process_emphasis:closer text_mut().unwrap()";
+    "inlines.rs:process_emphasis:opener text_mut().unwrap()";
+    "inlines.rs:close_bracket_match:bracket inl_text not among the children";
+    "inlines.rs:handle_close_bracket:bracket inl_text not among the children";
+    "inlines.rs:handle_close_bracket:label from bracket position";
+    "inlines.rs:handle_autolink_with:node.last_child().unwrap()";
+    "inlines.rs:handle_autolink_with:expected text node before autolink colon";
+    "inlines.rs:handle_autolink_with:end.column-reverse";
+    "inlines.rs:handle_pointy_brace:uri";
+    "inlines.rs:handle_pointy_brace:email";
+    "inlines.rs:handle_pointy_brace:contents";
+    "inlines.rs:make_autolink:end_column-1";
+    "inlines.rs:handle_close_bracket:input[endurl..]";
+    "inlines.rs:handle_close_bracket:input[starttitle..]";
+    "inlines.rs:handle_close_bracket:input[endtitle..]";
+    "inlines.rs:handle_close_bracket:title";
+    "strings.rs:clean_title:title[1..title_len - 1]" ]%string.
+Proof. exact (eq_refl _). Qed.
+Print Assumptions inlines_remaining_sites_are.
+
 Theorem inlines_total_partial_sites :
   forall memo o u inp lo sl refmap maxref rs0 site,
-    Strings.rtrim_slice inp = inp -> line_endings inp < List.length lo -> (rs0 <= maxref)%N ->
+    Strings.rtrim_slice inp = inp -> first_line_not_blank inp = true ->
+    line_endings inp < List.length lo -> (rs0 <= maxref)%N ->
     parse_inlines memo o u inp lo sl refmap maxref rs0 = Panic site -> In site inlines_remaining_sites.
 Proof. exact InlinesTotal2Walk.inlines_total_partial_sites_lemma. Qed.
 Print Assumptions inlines_total_partial_sites.
 
 Theorem inlines_total_partial_unreachable :
   forall memo o u inp lo sl refmap maxref rs0 site,
-    Strings.rtrim_slice inp = inp -> line_endings inp < List.length lo -> (rs0 <= maxref)%N ->
+    Strings.rtrim_slice inp = inp -> first_line_not_blank inp = true ->
+    line_endings inp < List.length lo -> (rs0 <= maxref)%N ->
     In site InlinesTotal2Walk.excluded_sites ->
     parse_inlines memo o u inp lo sl refmap maxref rs0 <> Panic site.
 Proof. exact InlinesTotal2Walk.inlines_total_partial_unreachable_lemma. Qed.
 Print Assumptions inlines_total_partial_unreachable.
+
+(* the list of the sites proved unreachable, spelled out *)
+Theorem inlines_unreachable_sites_are :
+  InlinesTotal2Walk.excluded_sites =
+  [ "inlines.rs:parse_inline:line-start.line";
+    "inlines.rs:parse_inline:line_offsets[adjusted_line]";
+    "inlines.rs:parse_inline:input[pos..endpos]";
+    "inlines.rs:parse_inline:endpos-1";
+    "inlines.rs:handle_newline:input[pos]";
+    "inlines.rs:handle_newline:input[pos] after CR";
+    "inlines.rs:handle_newline:pos-1";
+    "inlines.rs:handle_backticks:pos-1";
+    "inlines.rs:handle_backticks:endpos-openticks";
+    "inlines.rs:handle_backticks:buf";
+    "inlines.rs:handle_backticks:endpos-1";
+    "inlines.rs:handle_backticks:matchlen";
+    "inlines.rs:handle_backslash:unreachable";
+    "inlines.rs:handle_backslash:pos-1";
+    "inlines.rs:handle_entity:input[pos..]";
+    "inlines.rs:handle_entity:pos-1-len";
+    "inlines.rs:handle_entity:pos-1";
+    "inlines.rs:handle_pointy_brace:input[pos..]";
+    "inlines.rs:handle_pointy_brace:pos-1-matchlen";
+    "inlines.rs:handle_pointy_brace:pos-matchlen-1";
+    "inlines.rs:handle_pointy_brace:pos-1";
+    "inlines.rs:handle_delim:pos-numdelims";
+    "inlines.rs:handle_delim:contents";
+    "inlines.rs:handle_delim:pos-1";
+    "inlines.rs:scan_to_closing_dollar:pos-1";
+    "inlines.rs:scan_to_closing_dollar:input[pos-1]";
+    "inlines.rs:scan_to_closing_code_dollar:pos-1";
+    "inlines.rs:scan_to_closing_code_dollar:input[pos-1]";
+    "inlines.rs:handle_dollars:endpos-fence_length";
+    "inlines.rs:handle_dollars:buf";
+    "inlines.rs:handle_dollars:matchlen";
+    "inlines.rs:handle_dollars:pos-fence_length";
+    "inlines.rs:handle_dollars:pos-1";
+    "inlines.rs:adjust_node_newlines:pos-matchlen-extra";
+    "inlines.rs:adjust_node_newlines:pos-extra";
+    "inlines.rs:adjust_node_newlines:slice";
+    "inlines.rs:adjust_node_newlines:line-start.line";
+    "inlines.rs:adjust_node_newlines:parent_line_offsets[adjusted_line]";
+    "parser/inlines.rs:make_inline:try_from.unwrap";
+    "inlines.rs:end_column:try_from.unwrap";
+    "inlines.rs:process_emphasis:unreachable";
+    "inlines.rs:brackets[brackets_len - 1]";
+    "inlines.rs:RefMap::lookup:max_ref_size-ref_size";
+    "inlines.rs:handle_wikilink:startpos-1";
+    "inlines.rs:label_backslash_escapes:start_column+offset-1";
+    "autolink.rs:www_match:i+link_end-1";
+    "inlines.rs:handle_autolink_with:skip-need_reverse";
+    "autolink.rs:check_domain:data.len() - 1";
+    "autolink.rs:autolink_delim:link_end - 2";
+    "autolink.rs:autolink_delim:data[new_end]";
+    "autolink.rs:autolink_delim:data[link_end - 1]" ]%string.
+Proof. exact (eq_refl _). Qed.
+Print Assumptions inlines_unreachable_sites_are.
